@@ -188,6 +188,18 @@ def enc_big_jobs():
         jobs.append(Job("enc.cpp", "h_enc_big", defs=d, unwind=12, tier=tier, in_max=64, mem_gb=6,
                         sym="payload bytes (nondeterministic heap contents; one symbolic index compared), timestamps, version, device/stream id, counter start",
                         outside="frames beyond 9000 bytes (array copies of n bytes cost CBMC O(n) recursion depth and superlinear memory: 8000 bytes take 80 s, 20000 exhaust 11 GB; the 16-bit boundary at 65536+ is out of reach); byte-by-byte comparison of whole payloads (one symbolic sampled index of the first packet instead); message header fields other than the declared length"))
+    # 64 KiB frames: the 16-bit boundaries of payload length (65535) and frame size (65535 + 24). Copies transfer a 48-byte
+    # prefix only (rt/vp_rt.h VP_MEM_PREFIX; whole regions are still checked for accessibility), so sizes, tiling, headers,
+    # counters and the first 32 payload bytes are decided, not the remaining contents.
+    huge = [(enc_shape([65535], maxb=65559), "quick"), (enc_shape([65535], maxb=65558), "quick"), (enc_shape([65535], maxb=65536), "thorough"), (enc_shape([65535], maxb=65537), "thorough"),
+            (enc_shape([65535], maxb=65535), "thorough"), (enc_shape([65534], maxb=65558), "thorough"), (enc_shape([65512], maxb=65536), "quick"), (enc_shape([65513], maxb=65536), "thorough"),
+            (enc_shape([8, 65500], maxb=65559), "quick"), (enc_shape([8, 65535], maxb=65559), "thorough"), (enc_shape([65535, 8], maxb=65559), "thorough"), (enc_shape([40000, 40000], maxb=65559), "thorough"),
+            (enc_shape([65535], maxb=32768), "thorough"), (enc_shape([65535], maxb=65559, minb=65559), "thorough"), (enc_shape([100], maxb=65559, minb=65540), "quick"), (enc_shape([70], maxb=65559, minb=65536), "thorough")]
+    for d, tier in (huge if os.environ.get("VP_HUGE") else []):   # not yet tractable: see DESIGN section 7
+        dd = dict(d, HUGE=32)
+        jobs.append(Job("enc.cpp", "h_enc_big", defs=dd, cdefs={"VP_MEM_PREFIX": 48}, ll2c_opts=["--bytewise-wire"], unwind=50, tier=tier, in_max=64, mem_gb=8,
+                        sym="timestamps, version, device/stream id, counter start, the first 32 payload bytes of the first packet (one symbolic index compared)",
+                        outside="payload and padding contents beyond the first 48 bytes of each copy (copies are cut to a prefix in this mode; region accessibility is still checked); message header fields other than the declared length"))
     return jobs
 
 
@@ -284,14 +296,13 @@ def c04_shape(lens, padz=0, trunc=0, mtype=-1, ptype=-1, ver=1):
 
 
 def c04_hist_jobs():
-    jobs = []
-    for (lens, kw, hist, tier) in (([8], {}, 1, "quick"), ([8], {}, 2, "quick"), ([8], {}, 3, "quick"), ([8, 8], {"mtype": 1, "ptype": 1}, 1, "quick"), ([24], {"mtype": 1}, 1, "thorough"),
-                                   ([8], {"trunc": 1}, 1, "thorough"), ([16], {"padz": 4}, 2, "thorough"), ([36], {"mtype": 3, "ptype": 1}, 1, "thorough"), ([8, 8], {"mtype": 1, "ptype": 0xFE}, 3, "thorough")):
-        d = c04_shape(lens, **kw)
-        d["HIST"] = hist
-        n = 8 + sum(16 + l for l in lens)
-        jobs.append(Job("dec.cpp", "h_dec_wire", defs=d, unwind=4 * n + 60, unwindset=dec_unwindset(n), tier=tier, in_max=n + 48 + 40, mem_gb=8, variant="mapmodel",
-                        sym="every frame byte of both frames except version, segment bits and the declared lengths", outside="histories longer than one earlier frame (see C05/C17/C18 for sequences)"))
+    """'on a decoder with any history': the sequence harness (seq.cpp, labels C04) - an open message on one endpoint followed by
+    every sequence of two (thorough: three) frames over the 14-frame alphabet, each delivered packet compared field by field with
+    the big-endian bytes written into its frame(s); plus the hand-picked interleavings of C05. h_dec_wire (below) decides the
+    typed payload kinds, truncation and padding on a fresh decoder."""
+    q5, t5 = c05_shapes(4)
+    fam2, fam3 = seq_family(4, 2), seq_family(4, 3)
+    jobs = [j for j in seq_jobs(q5[::2] + fam2[::6], t5 + fam2 + fam3[::4]) if j.entry == "h_seq" and j.variant == SEQ_VARIANT]
     return jobs
 
 
